@@ -1,16 +1,20 @@
 /-
   C04 — dt() maps every supported spelling of an instant to the same datetime.
   Property theorems only.  `Gen.num2dt`, `Gen.ym`, `Gen.ymd`, `Gen.ymdSwap`, `Gen.re_*` are GENERATED from the
-  current text of src/pyg_base/_dates.py on every run.  What goes through dateutil / numpy / pandas (month names, datetime64,
-  Timestamp) is decided by correspondence only; the ISO / yyyymmdd text written by dt2str is read back by the model's
-  scanner (assumed to be how dateutil reads it); here the string clauses are about the
-  dialect decision of uk2dt / us2dt on top of the assumed dateutil reading `duResolve`.
+  current text of src/pyg_base/_dates.py on every run.  What goes through numpy / pandas (datetime64, Timestamp) and the
+  month-name spellings are decided by correspondence only.  The string clauses are about the dialect decision of
+  uk2dt / us2dt (strip, ambiguity test, swap / rejection) on top of the ASSUMED dateutil reading (`duResolve`, the scanner
+  `parseTokens`); the texts are quantified through independent predicates (`IsNumeral`, `TimeText`, `MatchesAmbiguity`),
+  and `ambiguous_iff` ties the hand-written matcher to the semantics of the source regex.
 -/
 import PygModel.DateParse
 import PygProofs.Lemmas.BumpLemmas
 import PygProofs.Lemmas.MonthLemmas
 import PygProofs.Lemmas.DateLemmas
 import PygProofs.Lemmas.DateStrLemmas
+import PygProofs.Lemmas.DateTextLemmas
+import PygProofs.Lemmas.AmbiguityLemmas
+import PygProofs.Lemmas.SqueezeLemmas
 
 namespace Pyg.Props.C04
 open Pyg Pyg.Bump Pyg.DateParse Pyg.Gen Pyg.Greg
@@ -47,6 +51,17 @@ theorem ymd_overflow_value (y m d : Int) (hy : 32 ≤ y) (y' m' : Nat)
   simp only [hc, and_self, if_true, Int.toNat_natCast]
   congr 1
   unfold mkDate ofOrd DAYUS; omega
+
+/-- the same for the entry point `dt(y, m, d)` itself (`dtYmd y m d 0 0 0`) -/
+theorem dt_ymd_overflow (y m d : Int) (hy : 32 ≤ y) (y' m' : Nat)
+    (hym : Gen.ym y m = ((y' : Int), (m' : Int))) (hy' : 1 ≤ y' ∧ y' ≤ 9999) :
+    dtYmd y m d 0 0 0 = checkRange (mkDate y' m' 1 + (d - 1) * DAYUS) := by
+  unfold dtYmd
+  rw [ymd_overflow_value y m d hy y' m' hym hy']
+  unfold checkRange
+  split
+  · next h => simp only [Except.bind, Int.zero_mul, Int.add_zero]; rw [if_pos h]
+  · rfl
 
 example : ymdDate 2000 14 0 = .ok (mkDate 2001 1 31) ∧ Gen.ym 2000 14 = (2001, 2) := ⟨ok_of_okVal (by decide +kernel), by decide⟩
 
@@ -129,56 +144,92 @@ example : num2dtQ (4 * 730180) = .abs (.ok (mkDate 2000 3 1)) := by
 
 /-! ### dialects: the decision of uk2dt / us2dt on top of dateutil's month-first reading -/
 
-/-- what `parser.parse` is assumed to return for the text `a<sep>b<sep>yyyy [time]` -/
+/-- what `parser.parse` is assumed to return for the text `a<sep>b<sep>yyyy [hh:mm:ss[.ffffff]]` -/
+def numeric3u (a b y hms us : Int) : Parsed := ⟨true, a, y, (duResolve a b).1, (duResolve a b).2, hms, us⟩
+
+/-- … without a fraction of a second -/
 def numeric3 (a b y hms : Int) : Parsed := ⟨true, a, y, (duResolve a b).1, (duResolve a b).2, hms, 0⟩
 
-/-- UK spelling `d<sep>m<sep>yyyy` of a calendar date, read with the UK dialect, is that date — whether or not the
-day is ≤ 12 (the day < 13 case goes through the swap on line 302, the other through the `t[:2]` check) -/
-theorem uk_parse (y m d : Nat) (v : Valid y m d) (hy : 32 ≤ y ∧ y < 9999) (hms : Int) :
-    ukDecide (numeric3 d m y hms) = checkRange (mkDate y m d + hms) := by
+theorem numeric3_eq (a b y hms : Int) : numeric3 a b y hms = numeric3u a b y hms 0 := rfl
+
+/-- UK spelling `d<sep>m<sep>yyyy [time]` of a calendar date, read with the UK dialect, is that instant TO THE MICROSECOND —
+whether or not the day is ≤ 12 (the day < 13 case goes through the swap on line 303, which passes the microseconds on as the
+7th argument of `dt`; the other case through the `t[:2]` check) -/
+theorem uk_parse_micro (y m d : Nat) (v : Valid y m d) (hy : 32 ≤ y ∧ y < 9999) (hms us : Int) :
+    ukDecide (numeric3u d m y hms us) = checkRange (mkDate y m d + hms + us) := by
   have hv := v; unfold Valid at hv
   have hb := dim_bounds y m hv.2.2.1 hv.2.2.2.1
   have hym : Gen.ym (y : Int) (m : Int) = ((y : Int), (m : Int)) := ym_of_normal _ _ _ _ (by omega) (by omega) rfl
-  unfold ukDecide numeric3 duResolve
+  unfold ukDecide numeric3u duResolve
   by_cases hd : (d : Int) > 12
   · -- dateutil reads day-first because d > 12; the day is ≥ 13 and equals the first number
     have c1 : ¬ ((d : Int) < 13) := by omega
     simp only [hd, if_true, c1, if_false, ne_eq, not_true_eq_false]
     rw [mkDateChecked_valid y m d v]
-    simp only [Except.bind, Int.add_zero]
-  · -- dateutil reads month-first: month := d, day := m < 13, and line 302 swaps them back
+    simp only [Except.bind]
+  · -- dateutil reads month-first: month := d, day := m < 13, and line 303 swaps them back
     have c1 : ((m : Int) < 13) := by omega
     simp only [hd, if_false, c1, if_true]
     unfold ymdDate
     rw [ymd_small_day _ _ _ (by omega), hym, mkMonthPlus_day y m d (by omega) (by omega) (by omega)]
     simp only [hv.2.2.2.2.2, if_true, Except.bind]
 
-/-- US spelling `m<sep>d<sep>yyyy` read with the US dialect is that date -/
-theorem us_parse (y m d : Nat) (v : Valid y m d) (hms : Int) :
-    usDecide (numeric3 m d y hms) = checkRange (mkDate y m d + hms) := by
+theorem uk_parse (y m d : Nat) (v : Valid y m d) (hy : 32 ≤ y ∧ y < 9999) (hms : Int) :
+    ukDecide (numeric3 d m y hms) = checkRange (mkDate y m d + hms) := by
+  rw [numeric3_eq, uk_parse_micro y m d v hy hms 0, Int.add_zero]
+
+/-- the fraction of a second is NOT lost on the day ≤ 12 path: two readings that differ in the microseconds give
+different instants (before the repair of `dt(y,m,d,h,mi,s,us)` both gave the whole second) -/
+theorem uk_small_day_keeps_micro (y m d : Nat) (v : Valid y m d) (hy : 32 ≤ y ∧ y < 9999) (_hd : d ≤ 12) (hms us us' : Int)
+    (h0 : 0 ≤ hms + us ∧ hms + us < DAYUS) (h0' : 0 ≤ hms + us' ∧ hms + us' < DAYUS) (hne : us ≠ us') :
+    ukDecide (numeric3u d m y hms us) ≠ ukDecide (numeric3u d m y hms us') := by
+  rw [uk_parse_micro y m d v hy, uk_parse_micro y m d v hy]
+  have hm : 0 ≤ mkDate y m d ∧ mkDate y m d + DAYUS ≤ MAXUS := mkDate_day_in_range y m d v
+  have e1 : checkRange (mkDate y m d + hms + us) = .ok (mkDate y m d + hms + us) := (checkRange_ok _ _).2 ⟨by omega, rfl⟩
+  have e2 : checkRange (mkDate y m d + hms + us') = .ok (mkDate y m d + hms + us') := (checkRange_ok _ _).2 ⟨by omega, rfl⟩
+  rw [e1, e2]
+  intro h; injection h with h; omega
+
+-- '02/01/2000 03:04:05.000006' read with the UK dialect
+example : ukDecide (numeric3u 2 1 2000 11045000000 6) = .ok (mkDate 2000 1 2 + 11045000006) := ok_of_okVal (by decide +kernel)
+
+/-- US spelling `m<sep>d<sep>yyyy [time]` read with the US dialect is that instant to the microsecond -/
+theorem us_parse_micro (y m d : Nat) (v : Valid y m d) (hms us : Int) :
+    usDecide (numeric3u m d y hms us) = checkRange (mkDate y m d + hms + us) := by
   have hv := v; unfold Valid at hv
-  unfold usDecide numeric3 duResolve
+  unfold usDecide numeric3u duResolve
   have hm : ¬ ((m : Int) > 12) := by omega
   simp only [hm, if_false, ne_eq, not_true_eq_false, and_false]
   rw [mkDateChecked_valid y m d v]
-  simp only [Except.bind, Int.add_zero]
+  simp only [Except.bind]
 
-/-- an unambiguous day-month string (day > 12) written the US way is rejected by the UK dialect … -/
-theorem uk_rejects_us (y m d : Nat) (hm : 1 ≤ m ∧ m ≤ 12) (hd : 12 < d) (hms : Int) :
-    ukDecide (numeric3 m d y hms) = .error .value := by
-  unfold ukDecide numeric3 duResolve
+/-- US spelling `m<sep>d<sep>yyyy` read with the US dialect is that date -/
+theorem us_parse (y m d : Nat) (v : Valid y m d) (hms : Int) :
+    usDecide (numeric3 m d y hms) = checkRange (mkDate y m d + hms) := by
+  rw [numeric3_eq, us_parse_micro y m d v hms 0, Int.add_zero]
+
+/-- an unambiguous day-month string (day > 12) written the US way is rejected by the UK dialect (any time of day) … -/
+theorem uk_rejects_us_micro (y m d : Nat) (hm : 1 ≤ m ∧ m ≤ 12) (hd : 12 < d) (hms us : Int) :
+    ukDecide (numeric3u m d y hms us) = .error .value := by
+  unfold ukDecide numeric3u duResolve
   have c0 : ¬ ((m : Int) > 12) := by omega
   have c1 : ¬ ((d : Int) < 13) := by omega
   have c2 : (m : Int) ≠ (d : Int) := by omega
   simp only [c0, if_false, c1, ne_eq, c2, not_false_eq_true, if_true]
 
+theorem uk_rejects_us (y m d : Nat) (hm : 1 ≤ m ∧ m ≤ 12) (hd : 12 < d) (hms : Int) :
+    ukDecide (numeric3 m d y hms) = .error .value := uk_rejects_us_micro y m d hm hd hms 0
+
 /-- … and written the UK way is rejected by the US dialect, instead of being silently swapped -/
-theorem us_rejects_uk (y m d : Nat) (hm : 1 ≤ m ∧ m ≤ 12) (hd : 12 < d) (hms : Int) :
-    usDecide (numeric3 d m y hms) = .error .value := by
-  unfold usDecide numeric3 duResolve
+theorem us_rejects_uk_micro (y m d : Nat) (hm : 1 ≤ m ∧ m ≤ 12) (hd : 12 < d) (hms us : Int) :
+    usDecide (numeric3u d m y hms us) = .error .value := by
+  unfold usDecide numeric3u duResolve
   have c0 : ((d : Int) > 12) := by omega
   have c2 : (m : Int) ≠ (d : Int) := by omega
   simp only [c0, if_true, ne_eq, c2, not_false_eq_true, and_self]
+
+theorem us_rejects_uk (y m d : Nat) (hm : 1 ≤ m ∧ m ≤ 12) (hd : 12 < d) (hms : Int) :
+    usDecide (numeric3 d m y hms) = .error .value := us_rejects_uk_micro y m d hm hd hms 0
 
 example : Valid 2000 1 13 ∧ (12 < 13) := by decide
 
@@ -247,8 +298,317 @@ theorem us_rejects_uk_text (y m d : Nat) (hm : 1 ≤ m ∧ m ≤ 12) (hd : 12 < 
 example : Valid 2000 1 13 ∧ isDateSep '.' = true ∧ isDateSep ' ' = true := by decide
 example : String.ofList (pad2 13 ++ '.' :: (pad2 1 ++ '.' :: (pad4 2000 ++ []))) = "13.01.2000" := by decide
 
-/-- the matcher of the model is the `ambiguity` regex of the source (a changed regex breaks this theorem) -/
-theorem ambiguity_regex_is_modelled : Gen.re_ambiguity = "^[0-9]{1,2}[-/ .][0-9]{1,2}[-/ .][0-9]{2,4}" := rfl
+/-- `ymd(t)` = `t` minus its time of day (used for `ymd(spelling)` below; the property theorem is `ymd_drops_time`) -/
+theorem ymd_drops_time' (t : Int) (h0 : 0 ≤ t) (h1 : t < MAXUS) : dropTime t = t - todOf t := by
+  have hn : 1 ≤ (ordOf t).toNat ∧ (ordOf t).toNat ≤ 3652059 := by unfold ordOf MAXUS DAYUS at *; omega
+  have h := ord_fromOrd_all (ordOf t).toNat hn.1 hn.2
+  have e : dropTime t = ofOrd (ordOf t) := by
+    unfold dropTime ymdOf mkDate
+    simp only [h.2]
+    congr 1; unfold ordOf DAYUS at *; omega
+  rw [e]; have := split_t t; omega
+
+/-! ### the same clauses on EVERY text of the quantifier: one- or two-digit fields (padded or not), any two of the four
+separators, any time-of-day suffix `[ T]h:m[:s[.f]]` to the microsecond.  The spellings are described by the independent
+predicates `IsNumeral` / `TimeText` (Lemmas/DateTextLemmas.lean), not by the scanner. -/
+
+/-- dateutil's own reading of `d<sep>m<sep>y` is a calendar date (so `parser.parse` does not raise), then the UK decision -/
+theorem uk_numeric_checked (y m d : Nat) (v : Valid y m d) (hy : 32 ≤ y ∧ y < 9999) (hms us : Int) :
+    ((mkDateChecked (y : Int) (duResolve (d : Int) (m : Int)).1 (duResolve (d : Int) (m : Int)).2).bind fun _ =>
+        ukDecide ⟨true, d, y, (duResolve (d : Int) (m : Int)).1, (duResolve (d : Int) (m : Int)).2, hms, us⟩)
+      = checkRange (mkDate y m d + hms + us) := by
+  have hv := v; unfold Valid at hv
+  have hb := dim_bounds y m hv.2.2.1 hv.2.2.2.1
+  have hu := uk_parse_micro y m d v hy hms us
+  unfold numeric3u at hu
+  rw [hu]
+  have hvalid : ∃ t, mkDateChecked (y : Int) (duResolve (d : Int) (m : Int)).1 (duResolve (d : Int) (m : Int)).2 = .ok t := by
+    unfold duResolve
+    by_cases hd : (d : Int) > 12
+    · simp only [hd, if_true]; exact ⟨_, mkDateChecked_valid y m d v⟩
+    · simp only [hd, if_false]
+      have hb2 := dim_bounds y d (by omega) (by omega)
+      exact ⟨_, mkDateChecked_valid y d m (by unfold Valid; omega)⟩
+  obtain ⟨t0, ht0⟩ := hvalid
+  rw [ht0]; rfl
+
+/-- UK text, general form: `dt('<d><sep><m><sep><yyyy>[ time]')` is the instant, to the microsecond -/
+theorem uk_text_gen (y m d : Nat) (v : Valid y m d) (hy : 32 ≤ y ∧ y < 9999) (a b yy tm : List Char) (s1 s2 : Char) (hms us : Int)
+    (ha : IsNumeral 2 a) (hb : IsNumeral 2 b) (hyy : IsNumeral 4 yy) (hy4 : yy.length = 4)
+    (va : digitsVal a = d) (vb : digitsVal b = m) (vy : digitsVal yy = y)
+    (h1 : isDateSep s1 = true) (h2 : isDateSep s2 = true) (ht : TimeText tm hms us) :
+    dtCs true (a ++ s1 :: (b ++ s2 :: (yy ++ tm))) = some (checkRange (mkDate y m d + hms + us)) := by
+  unfold dtCs
+  rw [parse_numeric3_text a b yy tm s1 s2 hms us ha hb hyy hy4 h1 h2 ht, va, vb, vy]
+  simp only [Option.map_some, if_true]
+  rw [if_neg ht.nonneg, uk_numeric_checked y m d v hy hms us]
+
+/-- US text, general form -/
+theorem us_text_gen (y m d : Nat) (v : Valid y m d) (a b yy tm : List Char) (s1 s2 : Char) (hms us : Int)
+    (ha : IsNumeral 2 a) (hb : IsNumeral 2 b) (hyy : IsNumeral 4 yy) (hy4 : yy.length = 4)
+    (va : digitsVal a = m) (vb : digitsVal b = d) (vy : digitsVal yy = y)
+    (h1 : isDateSep s1 = true) (h2 : isDateSep s2 = true) (ht : TimeText tm hms us) :
+    dtCs false (a ++ s1 :: (b ++ s2 :: (yy ++ tm))) = some (checkRange (mkDate y m d + hms + us)) := by
+  have hv := v; unfold Valid at hv
+  unfold dtCs
+  rw [parse_numeric3_text a b yy tm s1 s2 hms us ha hb hyy hy4 h1 h2 ht, va, vb, vy]
+  simp only [Option.map_some, Bool.false_eq_true, if_false]
+  rw [if_neg ht.nonneg]
+  have hu := us_parse_micro y m d v hms us
+  unfold numeric3u at hu
+  rw [hu]
+  have hr : duResolve (m : Int) (d : Int) = ((m : Int), (d : Int)) := by
+    unfold duResolve; have : ¬ ((m : Int) > 12) := by omega
+    simp only [this, if_false]
+  rw [hr, mkDateChecked_valid y m d v]; rfl
+
+/-- a US-written text with day > 12 (any padding, separators, time of day) is rejected by the UK dialect … -/
+theorem uk_rejects_us_text_gen (y m d : Nat) (hm : 1 ≤ m ∧ m ≤ 12) (hd : 12 < d) (a b yy tm : List Char) (s1 s2 : Char) (hms us : Int)
+    (ha : IsNumeral 2 a) (hb : IsNumeral 2 b) (hyy : IsNumeral 4 yy) (hy4 : yy.length = 4)
+    (va : digitsVal a = m) (vb : digitsVal b = d) (vy : digitsVal yy = y)
+    (h1 : isDateSep s1 = true) (h2 : isDateSep s2 = true) (ht : TimeText tm hms us) :
+    dtCs true (a ++ s1 :: (b ++ s2 :: (yy ++ tm))) = some (.error .value) := by
+  unfold dtCs
+  rw [parse_numeric3_text a b yy tm s1 s2 hms us ha hb hyy hy4 h1 h2 ht, va, vb, vy]
+  simp only [Option.map_some, Option.some.injEq, if_true]
+  rw [if_neg ht.nonneg]
+  have hu := uk_rejects_us_micro y m d hm hd hms us
+  unfold numeric3u at hu
+  rw [hu]
+  rcases mkDateChecked_cases (y : Int) (duResolve (m : Int) (d : Int)).1 (duResolve (m : Int) (d : Int)).2 with ⟨t0, h⟩ | h <;> rw [h] <;> rfl
+
+/-- … and a UK-written one by the US dialect: never silently swapped -/
+theorem us_rejects_uk_text_gen (y m d : Nat) (hm : 1 ≤ m ∧ m ≤ 12) (hd : 12 < d) (a b yy tm : List Char) (s1 s2 : Char) (hms us : Int)
+    (ha : IsNumeral 2 a) (hb : IsNumeral 2 b) (hyy : IsNumeral 4 yy) (hy4 : yy.length = 4)
+    (va : digitsVal a = d) (vb : digitsVal b = m) (vy : digitsVal yy = y)
+    (h1 : isDateSep s1 = true) (h2 : isDateSep s2 = true) (ht : TimeText tm hms us) :
+    dtCs false (a ++ s1 :: (b ++ s2 :: (yy ++ tm))) = some (.error .value) := by
+  unfold dtCs
+  rw [parse_numeric3_text a b yy tm s1 s2 hms us ha hb hyy hy4 h1 h2 ht, va, vb, vy]
+  simp only [Option.map_some, Option.some.injEq, Bool.false_eq_true, if_false]
+  rw [if_neg ht.nonneg]
+  have hu := us_rejects_uk_micro y m d hm hd hms us
+  unfold numeric3u at hu
+  rw [hu]
+  rcases mkDateChecked_cases (y : Int) (duResolve (d : Int) (m : Int)).1 (duResolve (d : Int) (m : Int)).2 with ⟨t0, h⟩ | h <;> rw [h] <;> rfl
+
+-- non-vacuity: the unpadded '2.1.2000 03:04:05.000006' (UK) and the rejected '1/13/2000 10:30' (UK)
+example : IsNumeral 2 "2".toList ∧ IsNumeral 2 "1".toList ∧ IsNumeral 4 "2000".toList ∧ digitsVal "2".toList = 2
+    ∧ TimeText " 03:04:05.000006".toList 11045000000 6 := by
+  refine ⟨by decide, by decide, by decide, by decide, ?_⟩
+  exact TimeText.frac ' ' "03".toList "04".toList "05".toList "000006".toList (Or.inl rfl) (by decide) (by decide) (by decide) (by decide)
+    (by decide) (by decide) (by decide)
+example : dtCs true "2.1.2000 03:04:05.000006".toList = some (.ok (mkDate 2000 1 2 + 11045000006)) := eq_of_okView (by decide +kernel)
+example : dtCs true "1/13/2000 10:30".toList = some (.error .value) := eq_of_isValueError (by decide +kernel)
+
+/-- an impossible time of day (`25:00`, `10:61`) makes dateutil raise: ValueError in both dialects, never a shifted instant -/
+example : dtCs true "13/01/2000 25:00:00".toList = some (.error .value) ∧ dtCs false "2000-01-13T10:61".toList = some (.error .value) :=
+  ⟨eq_of_isValueError (by decide +kernel), eq_of_isValueError (by decide +kernel)⟩
+
+/-! ### ISO text (the clause itself, not only what dt2str writes) -/
+
+/-- `dt('yyyy-mm-dd')`, `dt('yyyy-mm-ddThh:mm:ss[.ffffff]')`, `dt('yyyy-mm-dd hh:mm[:ss]')` … in both dialects: the instant -/
+theorem iso_text (uk : Bool) (y m d : Nat) (v : Valid y m d) (yy mm dd tm : List Char) (hms us : Int)
+    (hyy : IsNumeral 4 yy) (hy4 : yy.length = 4) (hmm : IsNumeral 2 mm) (hm2 : mm.length = 2) (hdd : IsNumeral 2 dd) (hd2 : dd.length = 2)
+    (vy : digitsVal yy = y) (vm : digitsVal mm = m) (vd : digitsVal dd = d) (ht : TimeText tm hms us) :
+    dtCs uk (yy ++ '-' :: (mm ++ '-' :: (dd ++ tm))) = some (checkRange (mkDate y m d + hms + us)) := by
+  unfold dtCs
+  rw [parse_iso_text yy mm dd tm hms us hyy hy4 hmm hm2 hdd hd2 ht, vy, vm, vd]
+  simp only [Option.map_some]
+  rw [if_neg ht.nonneg, decide_plain uk y m d v hms us]
+
+/-- the ISO date alone, as `strftime('%Y-%m-%d')` writes it -/
+theorem iso_date_text (uk : Bool) (y m d : Nat) (v : Valid y m d) :
+    dtCs uk (pad4 y ++ '-' :: (pad2 m ++ '-' :: (pad2 d ++ []))) = some (.ok (mkDate y m d)) := by
+  have hv := v; unfold Valid at hv
+  have hb := dim_bounds y m hv.2.2.1 hv.2.2.2.1
+  rw [iso_text uk y m d v (pad4 y) (pad2 m) (pad2 d) [] 0 0 (isNumeral_pad4 y) rfl (isNumeral_pad2 m) rfl (isNumeral_pad2 d) rfl
+    (val_pad4 y (by omega)) (val_pad2 m (by omega)) (val_pad2 d (by omega)) TimeText.none]
+  simp only [Int.add_zero]; rw [checkRange_mkDate y m d v]
+
+/-- `isoformat(' ')` / `isoformat()` with whole seconds, padded fields -/
+theorem iso_datetime_text (uk : Bool) (y m d h mi sec : Nat) (v : Valid y m d) (hh : h < 24) (hmi : mi < 60) (hs : sec < 60) (l : Char) (hl : IsLead l) :
+    dtCs uk (pad4 y ++ '-' :: (pad2 m ++ '-' :: (pad2 d ++ l :: (pad2 h ++ ':' :: (pad2 mi ++ ':' :: pad2 sec)))))
+      = some (.ok (mkDate y m d + ((h * 3600000000 + mi * 60000000 + sec * 1000000 : Nat) : Int))) := by
+  have hv := v; unfold Valid at hv
+  have hb := dim_bounds y m hv.2.2.1 hv.2.2.2.1
+  have ht := TimeText.hms l (pad2 h) (pad2 mi) (pad2 sec) hl (isNumeral_pad2 h) (isNumeral_pad2 mi) (isNumeral_pad2 sec)
+    (by rw [val_pad2 h (by omega)]; exact hh) (by rw [val_pad2 mi (by omega)]; exact hmi) (by rw [val_pad2 sec (by omega)]; exact hs)
+  rw [val_pad2 h (by omega), val_pad2 mi (by omega), val_pad2 sec (by omega)] at ht
+  rw [iso_text uk y m d v (pad4 y) (pad2 m) (pad2 d) _ _ 0 (isNumeral_pad4 y) rfl (isNumeral_pad2 m) rfl (isNumeral_pad2 d) rfl
+    (val_pad4 y (by omega)) (val_pad2 m (by omega)) (val_pad2 d (by omega)) ht]
+  have hm := mkDate_day_in_range y m d v
+  simp only [Int.add_zero]
+  congr 1
+  rw [checkRange_ok]; unfold DAYUS at hm; exact ⟨by omega, rfl⟩
+
+example : dtCs false "2000-02-29 23:59:59".toList = some (.ok (mkDate 2000 2 29 + 86399000000)) := eq_of_okView (by decide +kernel)
+
+/-! ### white space around the text is ignored (the dialect tests see the stripped text) -/
+
+/-- `dt(ws ++ text ++ ws')` = `dt(text)` for any white space around a text that starts and ends with other characters -/
+theorem dt_ignores_outer_ws (uk : Bool) (ws1 ws2 mid : List Char) (c0 c1 : Char) (h1 : ∀ c ∈ ws1, isWs c = true)
+    (h2 : ∀ c ∈ ws2, isWs c = true) (n0 : isWs c0 = false) (n1 : isWs c1 = false) :
+    dtStr uk (String.ofList (ws1 ++ (c0 :: (mid ++ [c1])) ++ ws2)) = dtStr uk (String.ofList (c0 :: (mid ++ [c1]))) := by
+  unfold dtStr
+  rw [String.toList_ofList, String.toList_ofList, strip_wrapped ws1 ws2 mid c0 c1 h1 h2 n0 n1, strip_id mid c0 c1 n0 n1]
+
+/-- in particular a US-written day > 12 text with blanks around it is still rejected by the UK dialect, and vice versa
+(C04-D1: on the unrepaired code these were silently swapped) -/
+theorem rejects_with_outer_ws (y m d : Nat) (hm : 1 ≤ m ∧ m ≤ 12) (hd : 12 < d ∧ d < 100) (hy : y < 10000) (s1 s2 : Char)
+    (h1 : isDateSep s1 = true) (h2 : isDateSep s2 = true) (ws1 ws2 : List Char) (w1 : ∀ c ∈ ws1, isWs c = true) (w2 : ∀ c ∈ ws2, isWs c = true) :
+    dtStr true (String.ofList (ws1 ++ (pad2 m ++ s1 :: (pad2 d ++ s2 :: (pad4 y ++ []))) ++ ws2)) = some (.error .value)
+    ∧ dtStr false (String.ofList (ws1 ++ (pad2 d ++ s1 :: (pad2 m ++ s2 :: (pad4 y ++ []))) ++ ws2)) = some (.error .value) := by
+  have e : ∀ a b : Nat, pad2 a ++ s1 :: (pad2 b ++ s2 :: (pad4 y ++ []))
+      = digit (a / 10) :: ([digit a, s1, digit (b / 10), digit b, s2, digit (y / 1000), digit (y / 100), digit (y / 10)] ++ [digit y]) := by
+    intros; rfl
+  have sq : ∀ a b : Nat, squeeze (pad2 a ++ s1 :: (pad2 b ++ s2 :: (pad4 y ++ []))) = pad2 a ++ s1 :: (pad2 b ++ s2 :: (pad4 y ++ [])) :=
+    fun a b => squeeze_padded a b y s1 s2 h1 h2
+  have st : ∀ a b : Nat, strip (pad2 a ++ s1 :: (pad2 b ++ s2 :: (pad4 y ++ []))) = pad2 a ++ s1 :: (pad2 b ++ s2 :: (pad4 y ++ [])) := by
+    intro a b; rw [e]; exact strip_id _ _ _ (digit_not_ws _) (digit_not_ws _)
+  constructor
+  · rw [e, dt_ignores_outer_ws true ws1 ws2 _ _ _ w1 w2 (digit_not_ws _) (digit_not_ws _), ← e]
+    unfold dtStr; rw [String.toList_ofList, st, sq]
+    exact uk_rejects_us_text y m d hm hd hy s1 s2 h1 h2
+  · rw [e, dt_ignores_outer_ws false ws1 ws2 _ _ _ w1 w2 (digit_not_ws _) (digit_not_ws _), ← e]
+    unfold dtStr; rw [String.toList_ofList, st, sq]
+    exact us_rejects_uk_text y m d hm hd hy s1 s2 h1 h2
+
+example : dtStr false " 13/01/2000" = some (.error .value) ∧ dtStr true "\t02/01/2000 " = some (.ok (mkDate 2000 1 2)) :=
+  ⟨eq_of_isValueError (by decide +kernel), eq_of_okView (by decide +kernel)⟩
+
+/-! ### blanks around the separators (`'13 / 01 / 2000'`, C04-D3): the dialect tests see the tight text -/
+
+theorem isDateSep_of_sq (s : Char) (h : IsSqSep s) : isDateSep s = true := by
+  rcases h with rfl | rfl | rfl <;> decide
+
+/-- the reading of EVERY padded spelling `a <sep> b <sep> yyyy[ time]` is the reading of its tight form -/
+theorem dt_padded_seps (uk : Bool) (a b yy tm : List Char) (s1 s2 : Char) (l1 r1 l2 r2 : List Char) (hms us : Int)
+    (ha : IsNumeral 2 a) (hb : IsNumeral 2 b) (hy : IsNumeral 4 yy) (h1 : IsSqSep s1) (h2 : IsSqSep s2)
+    (bl1 : ∀ c ∈ l1, c = ' ') (br1 : ∀ c ∈ r1, c = ' ') (bl2 : ∀ c ∈ l2, c = ' ') (br2 : ∀ c ∈ r2, c = ' ') (ht : TimeText tm hms us) :
+    dtCs uk (squeeze (a ++ (l1 ++ s1 :: (r1 ++ (b ++ (l2 ++ s2 :: (r2 ++ (yy ++ tm))))))))
+      = dtCs uk (a ++ s1 :: (b ++ s2 :: (yy ++ tm))) := by
+  rw [squeeze_padded_seps a b yy tm s1 s2 l1 r1 l2 r2 hms us ha hb hy h1 h2 bl1 br1 bl2 br2 ht]
+
+/-- … so a UK text with blanks around its separators is the instant (day ≤ 12 included: not dateutil's month-first reading) … -/
+theorem uk_padded_seps_text (y m d : Nat) (v : Valid y m d) (hy : 32 ≤ y ∧ y < 9999) (a b yy tm : List Char) (s1 s2 : Char)
+    (l1 r1 l2 r2 : List Char) (hms us : Int)
+    (ha : IsNumeral 2 a) (hb : IsNumeral 2 b) (hyy : IsNumeral 4 yy) (hy4 : yy.length = 4)
+    (va : digitsVal a = d) (vb : digitsVal b = m) (vy : digitsVal yy = y) (h1 : IsSqSep s1) (h2 : IsSqSep s2)
+    (bl1 : ∀ c ∈ l1, c = ' ') (br1 : ∀ c ∈ r1, c = ' ') (bl2 : ∀ c ∈ l2, c = ' ') (br2 : ∀ c ∈ r2, c = ' ') (ht : TimeText tm hms us) :
+    dtCs true (squeeze (a ++ (l1 ++ s1 :: (r1 ++ (b ++ (l2 ++ s2 :: (r2 ++ (yy ++ tm))))))))
+      = some (checkRange (mkDate y m d + hms + us)) := by
+  rw [dt_padded_seps true a b yy tm s1 s2 l1 r1 l2 r2 hms us ha hb hyy h1 h2 bl1 br1 bl2 br2 ht]
+  exact uk_text_gen y m d v hy a b yy tm s1 s2 hms us ha hb hyy hy4 va vb vy (isDateSep_of_sq s1 h1) (isDateSep_of_sq s2 h2) ht
+
+/-- … and the other dialect's day > 12 text with blanks around its separators is rejected, not silently swapped -/
+theorem rejects_padded_seps (y m d : Nat) (hm : 1 ≤ m ∧ m ≤ 12) (hd : 12 < d) (a b yy tm : List Char) (s1 s2 : Char)
+    (l1 r1 l2 r2 : List Char) (hms us : Int)
+    (ha : IsNumeral 2 a) (hb : IsNumeral 2 b) (hyy : IsNumeral 4 yy) (hy4 : yy.length = 4) (vy : digitsVal yy = y)
+    (h1 : IsSqSep s1) (h2 : IsSqSep s2)
+    (bl1 : ∀ c ∈ l1, c = ' ') (br1 : ∀ c ∈ r1, c = ' ') (bl2 : ∀ c ∈ l2, c = ' ') (br2 : ∀ c ∈ r2, c = ' ') (ht : TimeText tm hms us) :
+    (digitsVal a = m → digitsVal b = d →
+      dtCs true (squeeze (a ++ (l1 ++ s1 :: (r1 ++ (b ++ (l2 ++ s2 :: (r2 ++ (yy ++ tm)))))))) = some (.error .value))
+    ∧ (digitsVal a = d → digitsVal b = m →
+      dtCs false (squeeze (a ++ (l1 ++ s1 :: (r1 ++ (b ++ (l2 ++ s2 :: (r2 ++ (yy ++ tm)))))))) = some (.error .value)) := by
+  constructor
+  · intro va vb
+    rw [dt_padded_seps true a b yy tm s1 s2 l1 r1 l2 r2 hms us ha hb hyy h1 h2 bl1 br1 bl2 br2 ht]
+    exact uk_rejects_us_text_gen y m d hm hd a b yy tm s1 s2 hms us ha hb hyy hy4 va vb vy (isDateSep_of_sq s1 h1) (isDateSep_of_sq s2 h2) ht
+  · intro va vb
+    rw [dt_padded_seps false a b yy tm s1 s2 l1 r1 l2 r2 hms us ha hb hyy h1 h2 bl1 br1 bl2 br2 ht]
+    exact us_rejects_uk_text_gen y m d hm hd a b yy tm s1 s2 hms us ha hb hyy hy4 va vb vy (isDateSep_of_sq s1 h1) (isDateSep_of_sq s2 h2) ht
+
+example : dtStr false "13 / 01 / 2000" = some (.error .value) ∧ dtStr true "01 -13-  2000 10:30" = some (.error .value)
+    ∧ dtStr true "02 / 01 / 2000" = some (.ok (mkDate 2000 1 2)) ∧ dtStr true "2  1  2000 10:30" = some (.ok (mkDate 2000 1 2 + 37800000000)) :=
+  ⟨eq_of_isValueError (by decide +kernel), eq_of_isValueError (by decide +kernel), eq_of_okView (by decide +kernel), eq_of_okView (by decide +kernel)⟩
+
+/-! ### ymd(spelling): the date of the instant -/
+
+/-- whenever `dt(text)` is an instant of the day `(y, m, d)`, `ymd(text)` is midnight of that day -/
+theorem ymd_of_text (uk : Bool) (cs : List Char) (y m d : Nat) (v : Valid y m d) (tod : Int) (h0 : 0 ≤ tod ∧ tod < DAYUS)
+    (h : dtCs uk cs = some (.ok (mkDate y m d + tod))) : ymdCs uk cs = some (.ok (mkDate y m d)) := by
+  unfold ymdCs; rw [h]
+  have hm := mkDate_day_in_range y m d v
+  have hd := (ymd_drops_time' (mkDate y m d + tod) (by omega) (by omega))
+  simp only [Option.map_some, Except.map]
+  rw [hd]
+  congr 2
+  unfold todOf mkDate ofOrd at *; unfold DAYUS at *; omega
+
+/-- `ymd` of the UK / US / ISO spellings of an instant is its date -/
+theorem ymd_of_uk_text (y m d : Nat) (v : Valid y m d) (hy : 32 ≤ y ∧ y < 9999) (a b yy tm : List Char) (s1 s2 : Char) (hms us : Int)
+    (ha : IsNumeral 2 a) (hb : IsNumeral 2 b) (hyy : IsNumeral 4 yy) (hy4 : yy.length = 4)
+    (va : digitsVal a = d) (vb : digitsVal b = m) (vy : digitsVal yy = y)
+    (h1 : isDateSep s1 = true) (h2 : isDateSep s2 = true) (ht : TimeText tm hms us) (h0 : 0 ≤ hms + us ∧ hms + us < DAYUS) :
+    ymdCs true (a ++ s1 :: (b ++ s2 :: (yy ++ tm))) = some (.ok (mkDate y m d)) := by
+  have hm := mkDate_day_in_range y m d v
+  apply ymd_of_text true _ y m d v (hms + us) h0
+  rw [uk_text_gen y m d v hy a b yy tm s1 s2 hms us ha hb hyy hy4 va vb vy h1 h2 ht]
+  congr 1; rw [checkRange_ok]; exact ⟨by omega, by omega⟩
+
+theorem ymd_of_iso_text (uk : Bool) (y m d : Nat) (v : Valid y m d) (yy mm dd tm : List Char) (hms us : Int)
+    (hyy : IsNumeral 4 yy) (hy4 : yy.length = 4) (hmm : IsNumeral 2 mm) (hm2 : mm.length = 2) (hdd : IsNumeral 2 dd) (hd2 : dd.length = 2)
+    (vy : digitsVal yy = y) (vm : digitsVal mm = m) (vd : digitsVal dd = d) (ht : TimeText tm hms us) (h0 : 0 ≤ hms + us ∧ hms + us < DAYUS) :
+    ymdCs uk (yy ++ '-' :: (mm ++ '-' :: (dd ++ tm))) = some (.ok (mkDate y m d)) := by
+  have hm := mkDate_day_in_range y m d v
+  apply ymd_of_text uk _ y m d v (hms + us) h0
+  rw [iso_text uk y m d v yy mm dd tm hms us hyy hy4 hmm hm2 hdd hd2 vy vm vd ht]
+  congr 1; rw [checkRange_ok]; exact ⟨by omega, by omega⟩
+
+example : ymdCs true "13/01/2000 10:30".toList = some (.ok (mkDate 2000 1 13)) := eq_of_okView (by decide +kernel)
+
+/-! ### the model's matcher against the SEMANTICS of the `ambiguity` regex and of `int(t[:2]...)` -/
+
+/-- for every text the scanner reads at all, the `ambiguous` flag of the reading is set exactly when the text matches the
+regex (`MatchesAmbiguity`: starts with 1-2 digits, separator, 1-2 digits, separator, 2-4 digits — an independent
+transcription as a decomposition of the text).  A matcher that was too narrow or too wide on read texts would break this. -/
+theorem ambiguous_iff (cs : List Char) (p : Parsed) (h : parseCs cs = some p) : p.ambiguous = true ↔ MatchesAmbiguity cs := by
+  unfold parseCs at h
+  constructor
+  · intro ha
+    obtain ⟨a, la, b, lb, y, rest, s1, s2, htk, hla, hlb, hs1, hs2, _⟩ := parseTokens_amb_shape _ p h ha
+    obtain ⟨d1, r1, e1, l1, g1, _, _, hl1, t1⟩ := scan_inv_num _ _ _ _ _ htk
+    obtain ⟨r2, e2, t2⟩ := scan_inv_sep _ _ _ _ t1.symm
+    obtain ⟨d3, r3, e3, l3, g3, _, _, hl3, t3⟩ := scan_inv_num _ _ _ _ _ t2.symm
+    obtain ⟨r4, e4, t4⟩ := scan_inv_sep _ _ _ _ t3.symm
+    obtain ⟨d5, r5, e5, l5, g5, _, _, hl5, _⟩ := scan_inv_num _ _ _ _ _ t4.symm
+    refine ⟨d1, d3, d5, r5, s1, s2, ?_, ⟨l1, by omega, g1⟩, ⟨l3, by omega, g3⟩, ⟨by omega, by omega, g5⟩, hs1, hs2⟩
+    rw [e1, e2, e3, e4, e5]
+  · rintro ⟨a, b, y, rest, s1, s2, rfl, ⟨la1, la2, ga⟩, ⟨lb1, lb2, gb⟩, ⟨ly1, ly2, gy⟩, hs1, hs2⟩
+    have p1 := sep_props s1 hs1
+    have p2 := sep_props s2 hs2
+    have na : IsNumeral 2 a := ⟨by intro e; rw [e] at la1; simp at la1, la2, ga⟩
+    have nb : IsNumeral 2 b := ⟨by intro e; rw [e] at lb1; simp at lb1, lb2, gb⟩
+    have hl : a.length + b.length + y.length + rest.length + 2 + 1 = (a ++ s1 :: (b ++ s2 :: (y ++ rest))).length + 1 := by
+      simp only [List.length_append, List.length_cons]; omega
+    rw [← hl] at h
+    rw [scan_numeral _ (by omega) 2 a _ na (ndh_cons _ _ p1.1), scan_sep _ (by omega) _ _ p1.1 p1.2] at h
+    rw [scan_numeral _ (by omega) 2 b _ nb (ndh_cons _ _ p2.1), scan_sep _ (by omega) _ _ p2.1 p2.2] at h
+    match y, ly1, gy with
+    | y0 :: ys, _, gy =>
+      obtain ⟨v, l, ts, e⟩ := scan_digit_head (a.length + b.length + (y0 :: ys).length + rest.length + 2 + 1 - 1 - 1 - 1 - 1)
+        (by simp only [List.length_cons]; omega) y0 (ys ++ rest) (gy y0 (by simp))
+      rw [List.cons_append, e] at h
+      exact (parseTokens_numeric _ _ _ _ _ _ _ _ _ p h la2).1
+
+/-- … and its `first` number is `int(t[:2].replace(sep, ''))`: the value of the digits among the first two characters -/
+theorem ambiguous_first (cs : List Char) (p : Parsed) (h : parseCs cs = some p) (ha : p.ambiguous = true) : p.first = firstTwo cs := by
+  unfold parseCs at h
+  obtain ⟨a, la, b, lb, y, rest, s1, s2, htk, hla, hlb, hs1, hs2, hf⟩ := parseTokens_amb_shape _ p h ha
+  obtain ⟨d1, r1, e1, l1, g1, _, hv1, hl1, t1⟩ := scan_inv_num _ _ _ _ _ htk
+  obtain ⟨r2, e2, t2⟩ := scan_inv_sep _ _ _ _ t1.symm
+  rw [hf, e1, e2, firstTwo_numeral d1 r2 s1 l1 (by omega) g1 (sep_props s1 hs1).1, hv1]
+
+example : MatchesAmbiguity "13/1/2000 10:30".toList :=
+  ⟨"13".toList, "1".toList, "2000".toList, " 10:30".toList, '/', '/', rfl, by decide, by decide, by decide, rfl, rfl⟩
+example : firstTwo "1 13 2000".toList = 1 ∧ firstTwo "13.01.2000".toList = 13 := by decide
+
+/-- the regex SOURCE the matcher was written for is the one in the code (a changed regex text breaks this theorem).  It is the
+tight pattern of `MatchesAmbiguity` with `\s*` allowed on both sides of each separator; the model removes those blanks first
+(`squeeze`, theorems `squeeze_padded_seps`, `dt_padded_seps`, `uk_padded_seps_text`, `rejects_padded_seps`) and what the matcher does on the tight text is pinned to the
+regex semantics by `ambiguous_iff`. -/
+theorem ambiguity_regex_is_modelled : Gen.re_ambiguity = "^[0-9]{1,2}\\s*[-/ .]\\s*[0-9]{1,2}\\s*[-/ .]\\s*[0-9]{2,4}" := rfl
 
 /-! ### dt(dt2str(t)) == t -/
 
@@ -286,7 +646,7 @@ theorem dt2str_roundtrip (t : Int) (h0 : mkDate 1000 1 1 ≤ t) (h1 : t < MAXUS)
       rw [if_pos hz]
       rw [parse_compact y m d (by omega) (by omega) (by omega)]
       simp only [Option.map_some, Option.some.injEq]
-      rw [decide_plain uk y m d v, hdate]
+      rw [if_neg (Int.lt_irrefl 0), decide_plain uk y m d v, hdate]
       have : ofOrd (ordOf t) + 0 + 0 = t := by omega
       rw [this]; exact hrange
     · rw [if_neg hz]
@@ -299,7 +659,7 @@ theorem dt2str_roundtrip (t : Int) (h0 : mkDate 1000 1 1 ≤ t) (h1 : t < MAXUS)
         simp only [List.append_assoc, List.cons_append] 
         rw [e]
         simp only [Option.map_some, Option.some.injEq]
-        rw [decide_plain uk y m d v, hdate]
+        rw [if_neg (Int.not_lt.mpr (Int.natCast_nonneg _)), decide_plain uk y m d v, hdate]
         have : ofOrd (ordOf t) + (((todOf t).toNat / 1000000 / 3600 * 3600000000 + (todOf t).toNat / 1000000 / 60 % 60 * 60000000
             + (todOf t).toNat / 1000000 % 60 * 1000000 : Nat) : Int) + 0 = t := by omega
         rw [this]; exact hrange
@@ -309,7 +669,7 @@ theorem dt2str_roundtrip (t : Int) (h0 : mkDate 1000 1 1 ≤ t) (h1 : t < MAXUS)
         simp only [List.append_assoc, List.cons_append]
         rw [e]
         simp only [Option.map_some, Option.some.injEq]
-        rw [decide_plain uk y m d v, hdate]
+        rw [if_neg (Int.not_lt.mpr (Int.natCast_nonneg _)), decide_plain uk y m d v, hdate]
         have : ofOrd (ordOf t) + (((todOf t).toNat / 1000000 / 3600 * 3600000000 + (todOf t).toNat / 1000000 / 60 % 60 * 60000000
             + (todOf t).toNat / 1000000 % 60 * 1000000 : Nat) : Int) + (((todOf t).toNat % 1000000 : Nat) : Int) = t := by omega
         rw [this]; exact hrange
@@ -317,7 +677,7 @@ theorem dt2str_roundtrip (t : Int) (h0 : mkDate 1000 1 1 ≤ t) (h1 : t < MAXUS)
 /-- the same on strings: `dt(dt2str(t))` -/
 theorem dt2str_roundtrip_str (t : Int) (h0 : mkDate 1000 1 1 ≤ t) (h1 : t < MAXUS) (uk : Bool) :
     dtStr uk (dt2str t) = some (.ok t) := by
-  unfold dtStr dt2str; rw [String.toList_ofList]; exact dt2str_roundtrip t h0 h1 uk
+  unfold dtStr dt2str; rw [String.toList_ofList, strip_dt2strCs, squeeze_dt2strCs]; exact dt2str_roundtrip t h0 h1 uk
 
 -- non-vacuity: 2000-01-10T20:30:40.000050 (the docstring example of dt2str)
 example : dt2str 63083133040000050 = "2000-01-10T20:30:40.000050" ∧ mkDate 1000 1 1 ≤ 63083133040000050 ∧ (63083133040000050 : Int) < MAXUS := by
